@@ -3,6 +3,7 @@ package world
 import (
 	"encoding/hex"
 	"fmt"
+	"github.com/massnetorg/mass-core/massutil"
 	"sort"
 
 	"github.com/massnetorg/mass-core/wire"
@@ -102,6 +103,10 @@ func (w *World) TaskStatus(role string) string {
 	if wl == nil {
 		return ""
 	}
+	if w.Opt.HarnessDB != nil {
+		w.Opt.HarnessDB(true)
+		defer w.Opt.HarnessDB(false)
+	}
 	ws, err := w.I.W.Wallets()
 	if err != nil {
 		return "error: " + err.Error()
@@ -138,6 +143,8 @@ func (w *World) RemoveRun() error {
 	w.I.W.VerifDrainTasks()
 	err := w.I.W.VerifRunRemove(w.Wallets["B"].ID)
 	w.statusCache = nil
+	// worker() queues a failed removal again: CompleteTasks repeats it
+	w.RemoveFailed = err != nil
 	if err == nil && w.Pend != nil {
 		// pending transactions that concerned only the removed wallet go with it
 		l := w.Ledger()
@@ -233,6 +240,14 @@ func (w *World) ApplyTask(ev string) (bool, error) {
 			return true, fmt.Errorf("re-import of the removed wallet's mnemonic failed: %v", err)
 		}
 		return true, nil
+	case "n.a":
+		// NewAddress for wallet A (C12's operation, here as a target of storage faults)
+		if _, err := w.I.W.UseWallet(w.Wallets["A"].ID); err != nil {
+			return true, err
+		}
+		w.NewAddrCalls++
+		_, err := w.NewAddress("A")
+		return true, err
 	case "z":
 		if err := w.Restart(); err != nil {
 			return true, err
@@ -301,7 +316,7 @@ func (w *World) CompleteTasks() error {
 				}
 			}
 		}
-		if st == "removing" {
+		if st == "removing" || (role == "B" && w.RemoveFailed) {
 			if err := w.RemoveRun(); err != nil {
 				return fmt.Errorf("removal does not complete: %v", err)
 			}
@@ -396,4 +411,72 @@ func printable(b []byte) string {
 		return fmt.Sprintf("%q...(%d bytes)", b[:24], len(b))
 	}
 	return fmt.Sprintf("%q", b)
+}
+
+// UnknownWallets lists wallet ids the instance reports that the world does not know.
+func (w *World) UnknownWallets() ([]string, error) {
+	ws, err := w.I.W.Wallets()
+	if err != nil {
+		return nil, err
+	}
+	known := map[string]bool{}
+	for _, wl := range w.Wallets {
+		known[wl.ID] = true
+	}
+	var u []string
+	for _, s := range ws {
+		if !known[s.WalletID] {
+			u = append(u, s.WalletID)
+		}
+	}
+	return u, nil
+}
+
+// AdoptC registers wallet C if the instance holds it although the import call never
+// returned to the harness (crash or injected fault inside the call). It reports whether an
+// unknown wallet is C.
+func (w *World) AdoptC(id string) (bool, error) {
+	if _, err := w.CAddr(0); err != nil {
+		return false, err
+	}
+	if w.refC.WalletID != id {
+		return false, nil
+	}
+	return true, w.registerC(id)
+}
+
+// CheckAddressList compares wallet A's address listing with the addresses the harness was
+// handed by successful NewAddress calls: same set, no duplicates.
+func (w *World) CheckAddressList() []string {
+	var d []string
+	if _, err := w.I.W.UseWallet(w.Wallets["A"].ID); err != nil {
+		return []string{"address list: UseWallet(A): " + err.Error()}
+	}
+	l, err := w.I.W.GetAddresses(massutil.AddressClassWitnessV0)
+	if err != nil {
+		return []string{"address list: " + err.Error()}
+	}
+	got := map[string]int{}
+	for _, a := range l {
+		got[a.Address]++
+	}
+	for a, n := range got {
+		if n > 1 {
+			d = append(d, fmt.Sprintf("address list: %s listed %d times", a, n))
+		}
+	}
+	want := map[string]bool{}
+	for _, a := range w.Wallets["A"].Addrs {
+		want[a.Std] = true
+		if got[a.Std] == 0 {
+			d = append(d, fmt.Sprintf("address list: issued address %d (%s) is not listed", a.Idx, a.Std))
+		}
+	}
+	for a := range got {
+		if !want[a] {
+			d = append(d, fmt.Sprintf("address list: %s is listed but no successful NewAddress call returned it (%d calls, %d addresses handed out)", a, w.NewAddrCalls, len(want)))
+		}
+	}
+	sort.Strings(d)
+	return d
 }
